@@ -13,7 +13,8 @@ RULE = ("full product of a Unicode mnemonic alphabet (ASCII 12/24 words, compose
         "the seed constructors; constructor equivalence for 5 entropy sizes x 4 patterns x passphrases through from_entropy_hex, "
         "from_mnemonic, from_bip39_seed_bytes/_hex, from_extended_key(xprv/tprv) and new_wallet (re-created from its own mnemonic). "
         "Oracle: own PBKDF2-HMAC-SHA512 loop (2048, 64) with salt 'mnemonic'+NFKD(passphrase); HMAC 'Bitcoin seed'; twin pairs must "
-        "give equal seeds. non-trivial = seed / master compared; distinct by construction")
+        "give equal seeds. non-trivial = seed / master compared; distinct by construction"
+        "; intermediate-corner classes (vf/corners.py) for the 64 seed bytes, master IL and IR through every constructor")
 
 EN12 = "legal winner thank year wave sausage worth useful legal winner thank yellow"
 EN24 = "letter advice cage absurd amount doctor acoustic avoid letter advice cage absurd amount doctor acoustic avoid letter advice cage absurd amount doctor acoustic bless"
